@@ -18,6 +18,17 @@ TRUSTED = ["sqlite3.Connection.set_trace_callback reports every statement the co
 LEANCHECKER_MODULES = ["GffProofs.Props.C19"]
 
 
+def logical_dump(path):
+    """every schema object and every row of every table of the database file (sqlite3 iterdump), i.e. the content
+    down to indexes and statistics tables; header bytes / pragmas are not part of it"""
+    import sqlite3
+    con = sqlite3.connect(path)
+    try:
+        return "\n".join(con.iterdump())
+    finally:
+        con.close()
+
+
 def small_gff(r, tag):
     nodes = gen_db.rand_gff3_graph(r, n=r.randrange(2, 8), dangling=False)
     for x in nodes:
@@ -52,10 +63,14 @@ def run(ctx):
         db, rep = dbside.py_create(p_old, cfg, dbfn=dbfn)
         db.conn.commit(); db.conn.close()
         before = dbside.dump(gffutils.FeatureDB(dbfn))
+        before_all = logical_dump(dbfn)
         res.evaluations += 1
         # without force: must raise, content untouched
         db2, rep2 = dbside.py_create(p_new, cfg, dbfn=dbfn, force=False)
         after = dbside.dump(gffutils.FeatureDB(dbfn))
+        if logical_dump(dbfn) != before_all:
+            res.oracle_failures.append(("create_db(force=False) on an existing database changed the file's content "
+                                        "(schema objects / indexes / statistics / rows)", {"old": old_lines, "new": new_lines}))
         if db2 is not None:
             res.oracle_failures.append(("create_db on an existing database did not raise without force",
                                         {"old": old_lines, "new": new_lines}))
